@@ -102,6 +102,19 @@ def dict_record(rng, w, form, items, vw, norders=3, with_hash=False):
             hm.serialize()
             hm.set_int_key(items[0][0], items[0][2])
             hashes.append(list(hm.serialize().hash))
+            # ... and changed through its public entry dictionary (the only way to delete a key), and through the dictionary it was
+            # constructed over (map_=), between two serialisations
+            spare = next((k for k in (0, 1, (1 << w) - 1, (1 << w) >> 1) if k not in hm.map), None)
+            if spare is not None:
+                hm.map[spare] = 1
+                hm.serialize()
+                del hm.map[spare]
+                hashes.append(list(hm.serialize().hash))
+            shared = {raw: v for raw, _, v in items[:-1]}
+            hm2 = HashMap(w, map_=shared).with_uint_values(vw)
+            hm2.serialize()
+            shared[items[-1][0]] = items[-1][2]
+            hashes.append(list(hm2.serialize().hash))
         rec['hashes'] = hashes
         if cell is None:
             rec['out'] = {'none': 1}
@@ -185,13 +198,20 @@ def generate(tier, seed, ctx):
     # invalid and boundary keys
     for w in (1, 3, 8, 64, 256, 1023):
         for k in (-1, -(1 << w), 1 << w, (1 << w) + 1, (1 << w) - 1, 0, -(1 << (w - 1)) if w > 1 else -2, 1 << (w + 7)):
-            rec = {'op': 'badkey', 'w': w, 'form': 'int', 'key': big(k)}
-            try:
-                c = HashMap(w).with_uint_values(8).set(k, 5).serialize()
-                rec['out'] = {'ok': 1}
-            except Exception as e:
-                rec['out'] = {'err': type(e).__name__}
-            out.append(rec)
+            # every public way an integer key enters the map: set(), set_int_key(), set() behind a key_serializer
+            for via in ('set', 'set_int_key', 'key_serializer'):
+                rec = {'op': 'badkey', 'w': w, 'form': 'int', 'key': big(k), 'via': via}
+                try:
+                    if via == 'set':
+                        HashMap(w).with_uint_values(8).set(k, 5).serialize()
+                    elif via == 'set_int_key':
+                        HashMap(w).with_uint_values(8).set_int_key(k, 5).serialize()
+                    else:
+                        HashMap(w, key_serializer=lambda x: x).with_uint_values(8).set(k, 5).serialize()
+                    rec['out'] = {'ok': 1}
+                except Exception as e:
+                    rec['out'] = {'err': type(e).__name__}
+                out.append(rec)
         if w % 8 == 0:
             for raw in (b'\x01' + b'\x00' * (w // 8), b'\xff' * (w // 8), b'\x00' * (w // 8 + 3) + b'\x01'):
                 rec = {'op': 'badkey', 'w': w, 'form': 'bytes', 'key': list(raw)}
